@@ -55,3 +55,22 @@ package fox
 //@ func (*Route).ParamsLen props C19
 //@   requires r != nil
 //@   ensures result == r.psLen
+
+//@ -- ---------------------------------------------------------------- C19 / C13: NewRoute
+
+//@ func (*Router).NewRoute props C19,C13
+//@   requires fox != nil
+//@   requires forall k int :: {fox.mws[k]} 0 <= k && k < len(fox.mws) ==> fox.mws[k].m != nil
+//@   requires forall k int :: {opts[k]} 0 <= k && k < len(opts) ==> opts[k] != nil
+//@   modifies optCount
+//@   ensures invalid: result1 != nil ==> result0 == nil
+//@   ensures fresh: result1 == nil ==> result0 != nil && fresh(result0)
+//@   ensures identity: result1 == nil ==> same(result0.pattern, pattern) && result0.hbase == handler && 0 <= result0.hostSplit && result0.hostSplit < len(pattern) && pattern[result0.hostSplit] == '/' && result0.psLen == cnt(pattern, len(pattern))
+//@   ensures all-options: result1 == nil ==> optCount[result0] == old(optCount[result0]) + len(opts)
+//@   ensures chains: result1 == nil ==> result0.hself == rchain(result0.mws, handler, 0, true) && result0.hall == rchain(result0.mws, handler, 0, false)
+//@   assert-at call RouteOption.applyRoute#1 : in-order: arg_self == opts[optCount[rte] - old(optCount[rte])]
+//@   loop 1: invariant -1 <= rangeindex && rangeindex < len(opts) && rte != nil && fresh(rte) && optCount[rte] == old(optCount[rte]) + rangeindex + 1
+//@   loop 1: invariant same(rte.pattern, pattern) && rte.hbase == handler && rte.psLen == n && rte.hostSplit == endHost
+//@   loop 1: invariant forall k int :: {rte.mws[k]} 0 <= k && k < len(rte.mws) ==> rte.mws[k].m != nil
+//@   loop 1: invariant unshared: fresh(rte.mws) || cap(rte.mws) == len(rte.mws)
+//@   loop 1: decreases len(opts) - rangeindex
